@@ -32,6 +32,8 @@ def _xb_true(run, p):
 
 def check_c01(run, tol_inf=1e-9, tol_none=1e-5, tol_nonstoich=1e-9):
     """Solute conservation at every recorded step."""
+    if run['model'] is None:
+        return [], {'steps': 0, 'clamped': 0, 'full': 0, 'populated_steps': 0, 'max_rel_err': 0.0}
     m, c, mon = run['model'], run['cfg'], run['monitor']
     d = m.pData
     names = list(m.phases)
@@ -109,6 +111,8 @@ def check_c01(run, tol_inf=1e-9, tol_none=1e-5, tol_nonstoich=1e-9):
 
 def check_c02(run):
     """Reported statistics are moments of the PSD; number density changes only by nucleation/dissolution."""
+    if run['model'] is None:
+        return [], {'steps': 0, 'remesh_steps': 0, 'extend_steps': 0, 'subunit_removed': 0, 'nuc_steps': 0, 'recorded_rows': 0}
     m, c, mon = run['model'], run['cfg'], run['monitor']
     d = m.pData
     names = list(m.phases)
@@ -196,12 +200,16 @@ def check_c03(run, t0=0.0):
     """Well-formedness of a completed run."""
     from kawin.precipitation.PrecipitationParameters import PrecipitationData
     m, c, mon = run['model'], run['cfg'], run['monitor']
-    d = m.pData
     viol = []
 
     def bad(kind, msg):
         viol.append({'sig': kind, 'msg': msg})
     tag = '%s/%s' % (c['system'], c['temp'])
+    if m is None:
+        et, em = run['error']
+        bad('C03/exception/%s/%s/%s' % (c['system'], et, em.split(' at ')[-1]), '%s: %s' % (et, em))
+        return viol
+    d = m.pData
     if run['error'] is not None:
         et, em = run['error']
         if et == 'StepLimit':
